@@ -1917,6 +1917,20 @@ impl Server {
         
         let mut new_members = 0;
         
+        // Validate every pair before the first mutation: a refused ZADD adds nothing, and NaN is not a score
+        for i in (2..parts.len()).step_by(2) {
+            match &parts[i] {
+                RespFrame::BulkString(Some(bytes)) => match String::from_utf8_lossy(bytes).parse::<f64>() {
+                    Ok(n) if !n.is_nan() => {}
+                    _ => return Ok(RespFrame::error("ERR value is not a valid float")),
+                },
+                _ => return Ok(RespFrame::error("ERR invalid score format")),
+            }
+            if !matches!(&parts[i+1], RespFrame::BulkString(Some(_))) {
+                return Ok(RespFrame::error("ERR invalid member format"));
+            }
+        }
+        
         // Process each score-member pair
         for i in (2..parts.len()).step_by(2) {
             let score = match &parts[i] {
